@@ -80,6 +80,7 @@ struct Options {
     uint64_t maxSymObj = 1 << 16;
     std::string kissat = "";
     int dedupFailures = 1;
+    std::map<std::string, uint64_t> fixedChoice;   // --fix name=value: nixsym_choice(name, n) returns value without forking
     std::set<std::string> knownIds;
     std::set<std::string> noReplace;   // substrings of function names whose __vrt__ replacement is disabled   // ids with status 'known' in known_findings.json
 };
@@ -102,6 +103,7 @@ public:
     std::map<std::string, uint64_t> nativeUse;
     std::map<std::string, Failure> knownHits;
     uint64_t pathsDone = 0, pathsKilledAssume = 0, pathsError = 0, pathsBudget = 0, forks = 0, totalInsns = 0;
+    uint64_t qHeavy = 0; double slowestQ = 0;
     uint64_t qTotal = 0, qSat = 0, qUnsat = 0, qUnknown = 0; double solverS = 0;
     uint64_t assertsChecked = 0, assertsSymbolic = 0, pathsWithSymAssert = 0;
     std::vector<std::string> samplePaths;
